@@ -17,6 +17,7 @@ open ShellOp ShellOp.Util ShellOp.Discovery
 
 structure St where
   root : Option (Path × Tree) := none
+  proc : ProcState := procInit     -- what earlier starts of this case left behind in the process
 
 /-- `ok | fail | invalid`, optionally followed by `:<what the hook prints / does>` (the catalogue class
 of the configuration: the concrete input of the replay; the model only needs the outcome) -/
@@ -65,13 +66,14 @@ def step (st : St) (toks : List String) : St × String :=
     match parseTree ("d" :: rn :: rest) [] with
     | some t =>
       let rp := bytesOf rn
-      ({ root := some (rp, t) }, s!"walk={showPaths rp (discover rp t)}")
+      let r := startOnce rp st.proc t
+      ({ root := some (rp, t), proc := r.1 }, s!"walk={showPaths rp r.2.1}")
     | none => (st, "bad-op")
   | ["init"] =>
     match st.root with
     | none => (st, "bad-op")
     | some (rp, t) =>
-      let r := init rp t (outcomeAt rp t)
+      let r := (startOnce rp st.proc t).2.2
       let err := match r.err with | some p => strOf (relName rp p) | none => "-"
       (st, s!"names={showStrs (r.loaded.map strOf)} asked={showPaths rp r.asked} err={err}")
   | "oracle" :: "discover" :: rest =>
